@@ -3,7 +3,17 @@
 import json, os
 ROOT = os.path.dirname(os.path.dirname(os.path.abspath(__file__)))
 props = [json.loads(l) for l in open(os.path.join(ROOT, "properties.jsonl"))]
+REG_NOTE = "Small-scope hypothesis (3 identities exhaustively, <=12 in random universes); the harness's runtime-configurable Node<I> types stand in for arbitrary user TypeInfo impls; TLC, the harness projection and serde_json are trusted."
+REG_TECH = "TLA+ Registry spec (explicit recursion): TLC bounded-exhaustive design check, every terminal behaviour replayed on the real Registry, TLC trace validation of random universes under the property's own acceptor"
 CLAIMED = {
+ "C01": dict(cat="model_checking", tech=REG_TECH, ref="5/C01", note=REG_NOTE,
+      text="Registry/Builder/retain producers modelled in TLA+; TLC checks dense+closed at every quiescent state of every universe/history in the bound; all 59k terminal behaviours are replayed on the real Registry and the real result is checked dense, closed and resolvable by label; random real executions (register_type/register_types/map_into_portable, From<Registry>, resolve probes) are validated by TLC with WellFormed evaluated on every observed registry."),
+ "C02": dict(cat="model_checking", tech=REG_TECH, ref="5/C02", note=REG_NOTE,
+      text="The specification computes the portable image of each identity's type_info() independently of the implementation; the real registry state after every public call must equal it field for field (refinement acceptor), on every exhaustively enumerated small universe and on random universes with all eight definition kinds, cycles and aliases; termination is checked as liveness in the model and by the harness surviving cyclic universes."),
+ "C05": dict(cat="model_checking", tech=REG_TECH, ref="5/C05", note=REG_NOTE,
+      text="Hit-is-no-op, one entry per reachable identity and at-most-once evaluation are invariants/action properties of the model; on real executions the Eval callbacks logged from inside type_info() must be consumed exactly by the model's miss steps, returned ids must partition spellings exactly by identity (wrappers of wrappers included), and a call that adds nothing must change nothing."),
+ "C11": dict(cat="model_checking", tech=REG_TECH, ref="5/C11", note=REG_NOTE,
+      text="Append-only table and immutable entries are action properties of the model; on real executions every observed state must be a prefix-extension of the previous one, a replayed history must encode byte-identically, and a permuted root order must give a registry isomorphic up to id renaming (bijection computed by TLC from the roots)."),
  "C12": dict(cat="model_checking", tech="TLA+ Interner spec: TLC complete state graph, one real-code test per transition + TLC trace validation of random walks",
       text="Complete state graph of the Interner/Builder specification (all duplicate-free sequences over a small alphabet x all operations) model-checked for the table invariants; every transition executed against four real instantiations; random real-code walks accepted by the specification. Transition coverage of a finite abstract state space is the right level for an object whose whole state is observable.",
       note="Assumes the implementation has no hidden state beyond elements()/finish(); alphabet of 4 (quick) / 5 (thorough) values; TLC, the Rust harness and serde_json are trusted.", ref="5/C12"),
